@@ -208,9 +208,12 @@ def run_codec(cfg, counters, violations, samples, distinct):
 class Endpoint(object):
     def __init__(self):
         self.events = []
+        self.by_handler = {}
 
     def callback(self, handler, opcode, payload):
-        self.events.append((opcode.value, payload if payload is None or isinstance(payload, str) else bytes(payload)))
+        ev = (opcode.value, payload if payload is None or isinstance(payload, str) else bytes(payload))
+        self.events.append(ev)
+        self.by_handler.setdefault(id(handler), []).append(ev)
 
 
 def make_channel(router_holder):
@@ -248,6 +251,53 @@ def close_channel(proto):
             proto.connectionLost(Failure(ConnectionDone()))
     except Exception:
         pass
+
+
+def run_concurrent(r, holder, counters, violations):
+    """several websocket connections at once on one factory: the reads of the connections interleave, one holds
+    a partial frame while another receives data; each endpoint call must carry that connection's frames only"""
+    n = r.randint(2, 4)
+    conns = []
+    for k in range(n):
+        proto, tr, ep = make_channel(holder)
+        handler = proto.websocket_callback
+        frames = gen_frames(r)
+        frames = [f for f in frames if f[0] != "Close"]
+        stream = b"".join(ref_encode(OPS[op], p, key) for op, p, key in frames)
+        L_ = len(stream)
+        cuts = sorted(r.sample(range(1, L_), min(L_ - 1, r.randint(2, 8)))) if L_ > 2 else []
+        conns.append({"proto": proto, "handler": handler, "frames": frames, "chunks": cut(stream, cuts), "err": None})
+    ep = holder["ep"]
+    ep.by_handler = {}
+    order = []
+    for k, cn in enumerate(conns):
+        order += [k] * len(cn["chunks"])
+    r.shuffle(order)
+    pos = [0] * n
+    for k in order:
+        cn = conns[k]
+        if cn["err"] is None:
+            try:
+                with contextlib.redirect_stdout(io.StringIO()):
+                    cn["proto"].dataReceived(cn["chunks"][pos[k]])
+            except Exception as e:
+                cn["err"] = e
+        pos[k] += 1
+    counters.inc("concurrent_connection_groups")
+    for cn in conns:
+        got = ep.by_handler.get(id(cn["handler"]), [])
+        want = expected_events(cn["frames"])
+        counters.inc("concurrent_connections")
+        counters.inc("frames_sent", len(cn["frames"]))
+        if cn["err"] is not None or got != want:
+            counters.inc("viol:connections-interfere")
+            if sum(1 for v in violations if v["mechanism"] == "connections-interfere") < 5:
+                violations.append({"mechanism": "connections-interfere",
+                                   "msg": "%d simultaneous websocket connections with interleaved reads: one connection sent %d frames, its endpoint got %d events; error=%r" % (
+                                       n, len(cn["frames"]), len(got), cn["err"]), "case": {"connections": n}})
+        else:
+            counters.inc("frames_delivered_in_order", len(cn["frames"]))
+        close_channel(cn["proto"])
 
 
 def make_direct():
@@ -419,6 +469,8 @@ def run_seg(cfg, counters, violations, samples, distinct):
                 counters.inc("exhaustive_cut_sets")
             distinct.add(h64("exh", stream))
     for case in range(cfg["n"]):
+        if case % 10 == 0:
+            run_concurrent(r, holder, counters, violations)
         frames = gen_frames(r)
         stream = b"".join(ref_encode(OPS[op], p, k) for op, p, k in frames)
         L = len(stream)
@@ -467,7 +519,7 @@ def finish(tier, seed, results):
     m = merge(results)
     inconclusive = []
     need(m["counters"], ["frames_written", "frames_read", "roundtrips", "streams_fed_channel", "streams_fed_direct",
-                         "control_ok", "exhaustive_cut_sets", "frames_delivered_in_order"], inconclusive)
+                         "control_ok", "exhaustive_cut_sets", "frames_delivered_in_order", "concurrent_connections"], inconclusive)
     if m["counters"].get("control_ok", 0) != m["counters"].get("control_streams", -1):
         inconclusive.append("positive control failed: frame-aligned single-frame reads were not all delivered "
                             "(%s of %s) - the harness cannot attach" % (m["counters"].get("control_ok"), m["counters"].get("control_streams")))
